@@ -245,6 +245,8 @@ def impl_predicates(pid, op, impl):
         hits.append(("C18", "a read-only operation modified its argument"))
     if "bytes-with-error" in impl or "value-with-error" in impl or "message-with-error" in impl:
         hits.append(("C20", "bytes / value returned together with an error"))
+    if "TAGGED-LABEL" in impl:
+        hits.append(("C05", "a decoder accepted a header label that is a tagged item, not an integer or text"))
     if "empty-signature-emitted" in impl:
         hits.append(("C20", "a structure with an empty signature was encoded"))
     if impl.startswith("nondet"):
